@@ -84,6 +84,30 @@ def cls_of(op):
     return {"Pop": "Pop", "ReturnValue": "Ret", "Return": "RetN"}.get(op, "Other")
 
 
+def canon(s, key, pname, _depth=0):
+    """Name-independent form of an AST key.  The verifier names AST nodes by the compiler's own bindings
+    (`binary.left`, `arg`); rules compare roles: `$` is the node the arm compiles, `:Variant` the payload bound by a
+    pattern, `[]` an element of a child list (`[].0` / `[].1` for tuple elements), so `$:Binary.left`,
+    `$:Call.args[]`, `$:Hash.pairs[].0`.  Renaming a local or moving code into a helper leaves these unchanged."""
+    if key is None or _depth > 12:
+        return key
+    head, dot, rest = key.partition(".")
+    tail = (dot + rest) if dot else ""
+    pv = s.facts.get("payload:" + head)
+    if pv is not None:
+        parent = "$" if pv[0] == head or pv[0] == pname else canon(s, pv[0], pname, _depth + 1)
+        return "%s:%s%s" % (parent, pv[1], tail)
+    al = s.facts.get("alias:" + head)
+    if al is not None and al != head:
+        return canon(s, al, pname, _depth + 1) + tail
+    el = s.facts.get("elem:" + head)
+    if el is not None and el[0] != head:
+        return "%s[]%s%s" % (canon(s, el[0], pname, _depth + 1), "" if el[1] is None else ".%d" % el[1], tail)
+    if head == pname:
+        return "$" + tail
+    return key
+
+
 class Engine:
     def __init__(self, F, effects, need=None):
         self.F = F
@@ -99,10 +123,16 @@ class Engine:
         self.pred_stack = []
         self.site_count = {}
         self.top = ""
+        self.pname = None           # name of the AST parameter of the function whose arms are being verified
 
     # ------------------------------------------------------------------------------------------------------------------
     def v(self, rule, what, detail="", line=None, st=None):
-        facts = {k: v for k, v in st.facts.items() if k.startswith(("v:", "some:", "shape:"))} if st is not None else {}
+        facts = {}
+        if st is not None:
+            for k, v_ in st.facts.items():
+                if k.startswith(("v:", "some:", "shape:")):
+                    pre, key = k.split(":", 1)
+                    facts[pre + ":" + canon(st, key, self.pname)] = v_
         self.viol.append((rule, "%s: %s" % (self.cur, what), detail, line, facts))
 
     def site_name(self, n, op):
@@ -620,7 +650,14 @@ class Engine:
         return ()
 
     def fresh_key(self, name, st):
-        return name
+        """key of a payload binding: the binding's name, made unique when an outer payload binding of the same name is
+        still described by the path's facts (`ElseIfExpr::ElseIf(else_if)` then `Expression::If(else_if)`)"""
+        if ("payload:" + name) not in st.facts and ("alias:" + name) not in st.facts:
+            return name
+        i = 2
+        while ("payload:%s'%d" % (name, i)) in st.facts or ("alias:%s'%d" % (name, i)) in st.facts:
+            i += 1
+        return "%s'%d" % (name, i)
 
     def opt_fork(self, st, key):
         if key == "?":
@@ -689,7 +726,28 @@ class Engine:
                     for s2, matched in self.match_pat(a["pat"], v, r, n["scrut"]):
                         if matched:
                             if a.get("guard") is not None:
-                                raise Unsupported("match guard")
+                                # `PAT if cond =>`: the arm is taken when the guard holds, otherwise the later arms are tried
+                                for ctl3, s3, gv in self.ev(a["guard"], s2):
+                                    if ctl3 != "n":
+                                        out.append((ctl3, s3, gv))
+                                        continue
+                                    t = self.truth(gv)
+                                    ctxt = None
+                                    if t is None and H.strip(a["guard"]).get("k") != "let":
+                                        ctxt = "cond:" + H.render(a["guard"])[:80]
+                                        if ctxt in s3.facts:
+                                            t = s3.facts[ctxt]
+                                    if t is None or t:
+                                        s4 = s3.copy()
+                                        if t is None and ctxt:
+                                            s4.facts[ctxt] = True
+                                        out.extend(self.ev(a["body"], s4))
+                                    if t is None or not t:
+                                        s4 = s3.copy()
+                                        if t is None and ctxt:
+                                            s4.facts[ctxt] = False
+                                        nxt.append(s4)
+                                continue
                             out.extend(self.ev(a["body"], s2))
                         else:
                             nxt.append(s2)
@@ -737,6 +795,23 @@ class Engine:
             return ("ast", pat["name"])
         return UNK
 
+    def note_elems(self, coll, pat, st):
+        """record where a loop's element bindings come from (`elem:<binding>` = (key of the list, tuple position)), so
+        rules can name a child by its role instead of by the compiler's local variable names"""
+        base = coll
+        while base and base[0] in ("enumerate", "rev") and len(base) > 1:
+            base = base[1]
+            if pat.get("k") == "tuple" and len(pat["pats"]) == 2:
+                pat = pat["pats"][1]
+        if not (base and base[0] in ("ast", "coll") and isinstance(base[1], str)):
+            return
+        if pat.get("k") == "bind":
+            st.facts["elem:" + pat["name"]] = (base[1], None)
+        elif pat.get("k") == "tuple":
+            for i, p in enumerate(pat["pats"]):
+                if p.get("k") == "bind":
+                    st.facts["elem:" + p["name"]] = (base[1], i)
+
     def run_loop(self, coll, coll_node, pat, body, st):
         out = []
         # 1. vectors of jump placeholders: patch each member in turn
@@ -761,6 +836,31 @@ class Engine:
             for ctl, s2, v in self.ev(body, s):
                 res.append(("n", s2, UNIT) if ctl in ("n", "cont") else (ctl, s2, v))
             return res
+        probe = coll
+        while probe and probe[0] in ("enumerate", "rev") and len(probe) > 1:
+            if probe[0] == "rev":
+                self.v("child-order", "a list of AST children is compiled in reverse order: %s" % H.render(H.strip(coll_node))[:80], "", coll_node.get("line"))
+                coll = coll[1] if coll[0] == "rev" else ("enumerate", coll[1][1])
+                break
+            probe = probe[1]
+        inner = coll[1] if coll and coll[0] == "enumerate" else coll
+        if inner and inner[0] in ("list", "arr"):
+            # a literal list (`vec![key, value]`, `[a, b]`): unrolled
+            cur = [st]
+            for idx, ev_ in enumerate(inner[1]):
+                nxt = []
+                for s in cur:
+                    s = s.copy()
+                    self.bind(pat, ("tuple", [("lin", Lin(idx)), ev_]) if coll[0] == "enumerate" else ev_, s)
+                    for ctl, s2, v in self.ev(body, s):
+                        if ctl in ("n", "cont"):
+                            nxt.append(s2)
+                        elif ctl == "brk":
+                            out.append(("n", s2, UNIT))
+                        else:
+                            out.append((ctl, s2, v))
+                cur = self.dedup(nxt)
+            return out + [("n", s, UNIT) for s in cur]
         if coll and coll[0] == "range" and coll[1] is not None:
             # `for _ in 0..n`: n iterations of a body with a constant effect
             s = st.copy()
@@ -788,6 +888,7 @@ class Engine:
         for rnd in range(8):
             s = head.copy()
             self.bind(pat, self.elem_value(coll, pat, Lin(0)), s)
+            self.note_elems(coll, pat, s)
             ends = []
             for ctl, s2, v in self.ev(body, s):
                 if ctl in ("n", "cont"):
@@ -810,6 +911,7 @@ class Engine:
                 s = head.copy()
                 s.h = head.h + Lin(0, {isym: d.c})
                 self.bind(pat, self.elem_value(coll, pat, Lin(0, {isym: 1})), s)
+                self.note_elems(coll, pat, s)
                 ends2 = []
                 for ctl, s2, v in self.ev(body, s):
                     if ctl in ("n", "cont"):
@@ -923,6 +1025,11 @@ class Engine:
                     s.events = s.events + (("loop-begin", lb[2] if lb and lb[0] == "label" and len(lb) > 2 else None, None if od is None else (od - Lin(0, {"od0": 1})).key()),)
                     out.append(("n", s, ("loopctx", lb, od)))
             return out
+        if cal.endswith("box_assume_init_into_vec_unsafe") or cal.endswith("slice::<impl [T]>::into_vec"):
+            # `vec![a, b, ..]`: a list of known length
+            arrs = [x for x in H.walk(n) if x.get("k") == "array"]
+            if len(arrs) == 1:
+                return self.ev_list(arrs[0].get("es", []), st, lambda vs: ("list", vs))
         if cal.endswith("Vec::<T>::new") or cal.endswith("Vec::<T, A>::new") or H.last(cal) in ("new",) and "Vec" in cal:
             return [("n", st, ("phvec", frozenset()))]
         return [(c, s, UNK) if c == "n" else (c, s, v) for c, s, v in self.ev_list(n.get("args", []), st, lambda vs: UNK)]
@@ -946,6 +1053,16 @@ class Engine:
 
     def method(self, m, n, rv, args, st):
         r0 = rv[0] if rv else None
+        # the AST is compiled as written: a child list is neither reordered nor edited before it is compiled
+        base = rv
+        while base and base[0] in ("enumerate", "rev") and len(base) > 1:
+            base = base[1]
+        if base and base[0] == "ast" and not H.last(base[1]).endswith("()"):
+            rty = (n.get("recv_ty") or "")
+            if rty.startswith("&mut") and m not in ("iter_mut", "as_mut", "as_mut_slice", "borrow_mut", "deref_mut", "next", "by_ref", "get_mut", "first_mut", "last_mut"):
+                self.v("child-order", "a list of AST children is modified in place before it is compiled: %s.%s(..)" % (base[1], m), "", n.get("line"))
+            if m == "rev":
+                return [("n", st, ("rev", rv))]
         # transparent adaptors
         if m in ("clone", "as_ref", "as_str", "as_mut", "iter", "iter_mut", "rev", "into_iter", "to_string", "borrow", "to_owned", "to_vec"):
             if r0 == "loopstack" and m in ("iter", "iter_mut"):
@@ -1037,6 +1154,8 @@ class Engine:
             return [("n", st, ("label", st.h, len(st.emits) + len(st.order)))]
         if r0 == "lin" and m == "len":
             return [("n", st, rv)]
+        if r0 in ("list", "arr") and m == "len":
+            return [("n", st, ("lin", Lin(len(rv[1]))))]
         if m == "len":
             return [("n", st, ("lin", Lin(0, {"len(%s)" % H.render(H.strip(n["recv"])): 1})))]
         if r0 == "optval":
